@@ -120,6 +120,8 @@ func (c18) Gen(r *Rng, tier string, emit func(string, Tok)) {
 			emit("reader-fault", L(I(1), scenario{kind: kind, optSize: opt, fault: off, chunks: ch, data: data, ops: []int{op}}.tok()))
 			// the same failure point with an error that wraps io.EOF / io.ErrUnexpectedEOF (not end of input: only io.EOF itself is)
 			emit("reader-fault-wrapping-eof", L(I(1), scenario{kind: kind + 20*r.Range(1, 2), optSize: opt, fault: off, chunks: ch, data: data, ops: []int{op}}.tok()))
+			// ... or a "closed" error of package os / net / io (a read on a closed source is a failure too)
+			emit("reader-fault-wrapping-closed", L(I(1), scenario{kind: kind + 20*r.Range(3, 5), optSize: opt, fault: off, chunks: ch, data: data, ops: []int{op}}.tok()))
 		}
 		// inside the detection window, every offset, every reader kind
 		for off := 0; off <= 200; off += scale(tier, 2, 1) {
@@ -199,6 +201,21 @@ func (c18) Gen(r *Rng, tier string, emit func(string, Tok)) {
 			g.ops = append(g.ops, muxOp{kind: opPacket, p: p})
 			addHistory(r.Range(1, 3), g.ops)
 		}
+	}
+	// a first-packet adaptation field so large that the PES header no longer fits beside it: the adaptation field goes
+	// out in a packet of its own (no payload) before the unit starts; failure points inside that packet included
+	for _, n := range []int{165, 170, 174} {
+		g := newMuxGen(r, tier)
+		g.addExplicit(0)
+		pid := g.pids[0]
+		g.ops = append(g.ops, muxOp{kind: opSetPCR, pid: pid})
+		af := &astits.PacketAdaptationField{HasPCR: true, PCR: &astits.ClockReference{Base: 77, Extension: 1},
+			HasTransportPrivateData: true, TransportPrivateData: r.Bytes(n), TransportPrivateDataLength: n}
+		d := &astits.MuxerData{PID: pid, AdaptationField: af, PES: &astits.PESData{Data: r.Bytes(r.Range(1, 300)), Header: &astits.PESHeader{StreamID: 0xc0,
+			OptionalHeader: &astits.PESOptionalHeader{MarkerBits: 2, PTSDTSIndicator: astits.PTSDTSIndicatorOnlyPTS, PTS: &astits.ClockReference{Base: 90000}}}}}
+		g.ops = append(g.ops, muxOp{kind: opData, d: d})
+		g.data(pid, nil, 50)
+		addHistory(r.Range(2, 5), g.ops)
 	}
 	// every optional part of the adaptation field goes through the underlying writer: PCR, OPCR, splice countdown,
 	// private data, and an extension with legal time window, piecewise rate and seamless splice (DTS_next_AU) -
